@@ -58,4 +58,27 @@ RootedTreeFirst(s) ==
    /\ \/ s[1].k = "tree" /\ s[1].lead /\ Len(s) > 1
       \/ s[1].k = "rep" /\ RootedTreeFirst(s[1].bd)
       \/ s[1].k = "alt" /\ \E x \in DOMAIN s[1].bs : RootedTreeFirst(s[1].bs[x])
+
+(* ---- signatures for the analysis findings (C09, C10) ---- *)
+(* the last leaf of the expression (through the last branch bodies) is a separator:        *)
+(* the pattern demands a trailing separator, which no canonical path has (KF25)            *)
+RECURSIVE LastLeafIsSep(_)
+LastLeafIsSep(s) ==
+   /\ s # <<>>
+   /\ LET t == s[Len(s)] IN
+      \/ t.k = "sep"
+      \/ t.k = "alt" /\ \E x \in DOMAIN t.bs : LastLeafIsSep(t.bs[x])
+      \/ t.k = "rep" /\ LastLeafIsSep(t.bd)
+(* a tree wildcard immediately followed by a branch token (KF10) *)
+RECURSIVE TreeThenBranch(_)
+TreeThenBranch(s) == \E j \in DOMAIN s :
+   \/ s[j].k = "tree" /\ j < Len(s) /\ s[j + 1].k \in {"alt", "rep"}
+   \/ s[j].k = "alt" /\ \E x \in DOMAIN s[j].bs : TreeThenBranch(s[j].bs[x])
+   \/ s[j].k = "rep" /\ TreeThenBranch(s[j].bd)
+(* some character class lists the separator (such a class matches nothing, C11) *)
+RECURSIVE ClassListsSep(_)
+ClassListsSep(s) == \E j \in DOMAIN s :
+   \/ s[j].k = "class" /\ \E i \in DOMAIN s[j].items : s[j].items[i][1] <= cSEP /\ cSEP <= s[j].items[i][2]
+   \/ s[j].k = "alt" /\ \E x \in DOMAIN s[j].bs : ClassListsSep(s[j].bs[x])
+   \/ s[j].k = "rep" /\ ClassListsSep(s[j].bd)
 =============================================================================
